@@ -1,10 +1,10 @@
 package absint
 
 import (
-	"strconv"
 	"fmt"
 	"math/big"
 	"sort"
+	"strconv"
 	"strings"
 )
 
@@ -1088,7 +1088,6 @@ func completeChain(args []*Term) *Chain {
 	return top
 }
 
-
 // zeroSet returns the atoms that [e = 0] forces to zero when e is a sum of non-negative atoms with positive
 // coefficients (nil otherwise).
 func zeroSet(e *Term) map[*IAtom]bool {
@@ -1423,7 +1422,6 @@ func (t *Term) Syms() map[*IAtom]bool {
 	walkT(t)
 	return out
 }
-
 
 // groupSymByteEqs: among preds, the tests [name[i] = c_i] for all 32 bytes of one named 32-byte input are replaced
 // by [OS2IP(name) = OS2IP(c)] (big-endian, the reading the drivers use for 32-byte inputs).
